@@ -22,7 +22,9 @@ R1 argument words are escaped exactly when CWL says so, and with the right funct
 R2 environment, working directory and stream redirections reach the process through the shared renderer:
    a. `execute` passes `environment=<dict built from every self.environment item>`, `workdir=job.output_directory`
       and `stdin/stdout/stderr` evaluated from the homonymous CWL fields to `connector.run`; HOME / TMPDIR
-      are defaulted only when EnvVarRequirement did not set them, to outdir / tmpdir (guarded stores, or a dict
+      are defaulted only when EnvVarRequirement did not set them, to outdir / tmpdir (stores at which the branch
+      fact `'K' in env` is false on every path -- sfverif.facts, so `not in` / `not (.. in ..)` / else-branch /
+      guard-clause spellings are the same --, `env.setdefault('K', v)`, or a dict
       merge `{defaults} | {entries}` -- a literal on the right of the entries overrides them and is reported);
    b. every caller of `create_command` (all `Connector.run` renderers) forwards its own `command`,
       `environment`, `workdir` (and `stdin/stdout/stderr` when it forwards them) unchanged;
